@@ -65,6 +65,16 @@ func applyPatch(repo, patchFile string) (map[string][]byte, string) {
 		if strings.HasPrefix(l, "+++ b/") {
 			files = append(files, strings.TrimPrefix(l, "+++ b/"))
 		}
+		if strings.HasPrefix(l, "--- a/") {
+			f := strings.TrimPrefix(l, "--- a/")
+			dup := false
+			for _, g := range files {
+				dup = dup || g == f
+			}
+			if !dup {
+				files = append(files, f) // deleted (or renamed) by the patch
+			}
+		}
 	}
 	if len(files) == 0 {
 		return nil, "patch names no files"
@@ -89,9 +99,27 @@ func applyPatch(repo, patchFile string) (map[string][]byte, string) {
 		return nil, "patch does not apply to the current tree: " + firstLine(string(out))
 	}
 	ov := map[string][]byte{}
+	seen := map[string]bool{}
 	for _, f := range files {
+		if seen[f] {
+			continue
+		}
+		seen[f] = true
 		b, err := os.ReadFile(filepath.Join(tmp, f))
 		if err != nil {
+			// deleted by the patch: an overlay cannot remove a file, an empty file of the same package is equivalent
+			if src, err2 := os.ReadFile(filepath.Join(repo, f)); err2 == nil && strings.HasSuffix(f, ".go") {
+				pkg := ""
+				for _, l := range strings.Split(string(src), "\n") {
+					if strings.HasPrefix(l, "package ") {
+						pkg = strings.Fields(l)[1]
+						break
+					}
+				}
+				if pkg != "" {
+					ov[filepath.Join(repo, f)] = []byte("package " + pkg + "\n")
+				}
+			}
 			continue
 		}
 		ov[filepath.Join(repo, f)] = b
